@@ -483,7 +483,8 @@ pub fn judge(directed: bool, g: &GCase, root: Key, cell: &Cell, meth: &MethSpec,
             } else {
                 bad!(cb(), "callback.non-edge", "closure was handed {:?} which is not a stored edge in this orientation", (s, t, e));
             }
-            return fails;
+            // (no early return: what the search *returns* is judged independently of what its closure saw)
+            break;
         }
     }
     // closure calls are a sub-multiset of the edges leaving reachable nodes
